@@ -23,6 +23,7 @@ type Job struct {
 	Seconds float64   `json:"seconds"` // total stress time over all configurations
 	Seed    int64     `json:"seed"`
 	Jitter  bool      `json:"jitter"`
+	LimitS  float64   `json:"limit_s"` // wall-clock patience per wait (default 30)
 }
 
 type Failure struct {
@@ -38,35 +39,60 @@ type Result struct {
 	Got      [][]int   `json:"got"` // first run: what each consumer received
 	Results  []int     `json:"results"`
 	ErrCode  int       `json:"err_code"`
+	Starved  string    `json:"starved"` // not a finding: the run was too slow to judge (see runOnce)
 }
 
+// limit is the wall-clock patience per wait (Job.LimitS, default 30 s). Its expiry is never a verdict.
+var limit = 30 * time.Second
+
+// runOnce runs one configuration. class "starved" is not a finding: the
+// environment did not finish in time but its goroutines are not all blocked.
 func runOnce(cfg obs.Cfg, base int) (obs.Snap, string, string) {
 	o := k.NewObs(cfg)
 	k.Run(cfg, o)
 	done := make(chan struct{})
 	go func() { o.Wait(); close(done) }()
-	select {
-	case <-done:
-	case <-time.After(30 * time.Second):
-		return o.Snapshot(), "deadlock", "environment did not finish within 30 s on the real runtime"
+	for round := 0; ; round++ {
+		finished := false
+		select {
+		case <-done:
+			finished = true
+		case <-time.After(limit):
+		}
+		if finished {
+			break
+		}
+		blocked, pic := classify()
+		if blocked {
+			return o.Snapshot(), "deadlock", "every goroutine of the environment and the combinator is blocked (two dumps 1 s apart, unrewritten code, real runtime): " + pic
+		}
+		if round >= 2 {
+			return o.Snapshot(), "starved", fmt.Sprintf("environment did not finish within %v but its goroutines are not all blocked: %s", 3*limit, pic)
+		}
 	}
 	s := o.Snapshot()
 	if c, d := obs.Check(cfg, s, true); c != "" {
 		return s, c, d
 	}
 	// every goroutine of the combinator must be gone
-	for i := 0; ; i++ {
-		if runtime.NumGoroutine() <= base {
-			break
-		}
-		if i > 3000 {
-			return s, "goroutines left blocked after the combinator finished",
-				fmt.Sprintf("%d goroutines alive 3 s after completion (baseline %d)", runtime.NumGoroutine(), base)
-		}
+	start := time.Now()
+	for i := 0; runtime.NumGoroutine() > base; i++ {
 		if i < 50 {
 			runtime.Gosched()
-		} else {
-			time.Sleep(time.Millisecond)
+			continue
+		}
+		time.Sleep(time.Millisecond)
+		if time.Since(start) > limit/10 {
+			blocked, pic := classify()
+			if len(userGoroutines()) == 0 {
+				break // what is left is not ours (runtime helpers)
+			}
+			if blocked {
+				return s, "goroutines left blocked after the combinator finished", "still blocked after completion (two dumps 1 s apart): " + pic
+			}
+			if time.Since(start) > 3*limit {
+				return s, "starved", "goroutines of the combinator still running after completion: " + pic
+			}
 		}
 	}
 	return s, "", ""
@@ -92,7 +118,10 @@ func main() {
 		results[i] = Result{Cfg: c, ID: c.ID()}
 	}
 	base := runtime.NumGoroutine()
-	nfail := 0
+	nfail, nstarved := 0, 0
+	if job.LimitS > 0 {
+		limit = time.Duration(job.LimitS * float64(time.Second))
+	}
 	deadline := time.Now().Add(time.Duration(job.Seconds * float64(time.Second)))
 	for round := 0; ; round++ {
 		if job.Iters > 0 && round >= job.Iters {
@@ -108,6 +137,17 @@ func main() {
 			r.Runs++
 			if round == 0 {
 				r.Got, r.Results, r.ErrCode = s.Got, s.Results, s.ErrCode
+			}
+			if class == "starved" {
+				// no verdict: the harness re-runs this configuration alone with ten times the patience
+				r.Starved, class = detail, ""
+				base = runtime.NumGoroutine()
+				if nstarved++; nstarved >= 2 { // slow goroutines pile up: stop this job
+					for _, r := range results {
+						enc.Encode(r)
+					}
+					os.Exit(0)
+				}
 			}
 			if class != "" && len(r.Failures) < 3 {
 				r.Failures = append(r.Failures, Failure{class, detail})
